@@ -6,14 +6,17 @@
    Section closes).  The OCaml driver passes OCaml's Digest (MD5); the theorems hold for every
    function.  HMAC-MD5 is defined here from it (RFC 2104, block size 64).
 
-   The model carries four repair flags (true = repaired behaviour, for which the full theorems
-   are proved; false = what the unchanged code does):
+   The model carries five repair flags (true = repaired behaviour).  Four of them describe fixes that are
+   committed in /repo (7e62e2a, db29b2a, 331235d, 6f22cf3); their [false] branches are kept only for the historical
+   [_refuted] witnesses in Properties.v and are not used by the correspondence check:
      f_reply    transport.go readLoop verifies Response Authenticator + Message-Authenticator
      f_coaauth  coa.go verifies the Request Authenticator, computes the request MA per RFC 5176
                 (zero authenticator field), and builds its replies MA first, authenticator second
      f_dmwin    the Event-Timestamp replay window also applies to Disconnect-Request
      f_white    a CoA whose attribute delta leaves the documented mutable set is NAKed (401)
-     f_tsreq    while the replay window is enabled a request without a usable Event-Timestamp is discarded *)
+   The fifth is the one finding still recorded as known (coa-without-event-timestamp-bypasses-window):
+     f_tsreq    while the replay window is enabled a request without a usable Event-Timestamp is discarded
+   [repaired] = all true (full theorems); [head] = /repo HEAD = all true except f_tsreq. *)
 From Coq Require Import String Ascii.
 From OV Require Import Common.Base.
 Import ListNotations.
@@ -461,7 +464,7 @@ Definition build_coa_reply (fl : flags) (secret reqraw : bytes) (req : packet) (
               else e1 in
     set_at 4 e2 (md5 (e2 ++ secret))
   else
-    (* today: Response Authenticator over the zero placeholder, then MA over the finished header *)
+    (* before db29b2a: Response Authenticator over the zero placeholder, then MA over the finished header *)
     let e2 := set_at 4 e1 (md5 (e1 ++ secret)) in
     if has_ma then
       match find_attr80 e2 with
